@@ -7,13 +7,21 @@ def build(ctx):
     ctx.builddir = B.fresh_dir("c08")
     d = ctx.builddir + "/asan"
     objs = B.build_lib("asan", d)
-    return {"h_writer": B.build_harness("asan", d, "h_writer", ["h_writer.c", "refdec.c"], objs)}
+    exes = {"h_writer": B.build_harness("asan", d, "h_writer", ["h_writer.c", "refdec.c"], objs)}
+    if ctx.tier == "thorough":
+        d2 = ctx.builddir + "/plain"
+        exes["h_writer.plain"] = B.build_harness("plain", d2, "h_writer.plain", ["h_writer.c", "refdec.c"], B.build_lib("plain", d2))
+    return exes
 
 
 def run(ctx):
-    exe = build(ctx)["h_writer"]
+    exes = build(ctx)
+    exe = exes["h_writer"]
     th = ctx.tier == "thorough"
-    ctx.fan(exe, "c08", 60000 if th else 5000, timeout=120)
+    calls = [((exe, "c08", 60000 if th else 5000), dict(timeout=120, max_workers=15 if th else 16))]
+    if th:   # keys of 2^31 + 1 bytes against their own prefixes / extensions (about 6 GiB and 20 s per case, -O2 build)
+        calls.append(((exes["h_writer.plain"], "c08big", 5), dict(chunk=1, timeout=900, max_workers=1, prefix="plain.")))
+    ctx.fan_parallel(calls)
     ctx.fan(exe, "c08pre", 400 if th else 40, timeout=60)
     s = ctx.stats
     adds = sum(v for k, v in s.items() if k.startswith("c08.adds."))
@@ -27,5 +35,5 @@ def run(ctx):
         evaluations=adds,
         floors={"c08.sequences": 4000, "c08.adds.refused.equal": 2000, "c08.adds.refused.proper-prefix": 2000, "c08.adds.refused.sign-trap-down(0x80->0x7f)": 300,
                 "c08.adds.accepted.sign-trap-up(0x7f->0x80)": 300, "c08.adds.accepted.first-empty-key": 100, "c08.multi_block_files": 500,
-                "c08pre.targets.regular-file": 20, "c08pre.targets.dangling-symlink": 20, "c08pre.targets.directory": 20, "c08pre.targets.symlink-to-file": 20},
+                "c08pre.targets.regular-file": 20, "c08pre.targets.dangling-symlink": 20, "c08pre.targets.directory": 20, "c08pre.targets.symlink-to-file": 20, **({"plain.c08big.cases": 5, "plain.c08big.key_plus_value_over_UINT32_MAX": 1} if th else {})},
         extra={"adds": adds, "refused_adds": refused})
